@@ -31,9 +31,9 @@ Judge == /\ pc = "Done" /\ ~judged /\ judged' = TRUE
          /\ UNCHANGED <<vars, tid>>
          /\ LET T == Traces[tid]  x == Brute(rows, qa, qb)
                 mod == IF err # "" THEN T.res.kind = "exc" /\ T.res.exc = err ELSE Same(T.res, result)
-            IN /\ (Same(T.res, x) \/ PrintT(<<"V", T.tid, "C12.brute", Detail(T.res, x)>>))
-               /\ (mod \/ PrintT(<<"M", T.tid, "find_overlaps", Detail(T.res, x)>>))
-               /\ TLCSet(1, TLCGet(1) + 1)
+            IN (/\ (Same(T.res, x) \/ PrintT(<<"V", T.tid, "C12.brute", Detail(T.res, x)>>))
+                /\ (mod \/ PrintT(<<"M", T.tid, "find_overlaps", Detail(T.res, x)>>))
+                /\ TLCSet(1, TLCGet(1) + 1)) = TRUE   \* "= TRUE": an expression, not an action TLC would split at each \/
 
 TNext == (Next /\ pc # "Done" /\ UNCHANGED <<tid, judged>>) \/ Judge
 TraceSpec == TInit /\ [][TNext]_tvars
